@@ -193,6 +193,8 @@ def run_scenario(sc, chooser=None, seed=0, max_steps=8000, horizon_ticks=1400):
                         t = tillmod.Till(seconds=op[2] / TICK)
                     else:
                         t = tillmod.Till(till=sched.clock + op[2] / TICK)
+                    if op[0] == "till" and op[2] <= 0 and not bool(ds.raw(t, "_go")):
+                        st["viol"].append("C13: Till(seconds=%s) is not true immediately (non-positive seconds)" % (op[2] / TICK))
                     if t is signals.DONE:
                         st["returned_done"].append((ti, op[2], now))
                         last = t
